@@ -23,8 +23,6 @@ Definition res_matches (m : result (list str)) (o : obs_t) : bool :=
   | _, _ => false
   end.
 
-Definition text_of (pairs : list (str * str)) : str := concat (map (fun p => fst p ++ snd p) pairs).
-Definition lines_of (pairs : list (str * str)) : list str := map fst pairs.
 Definition fs_none : str -> option str := fun _ => None.
 Definition path_placeholder : str := [112%N].
 
@@ -94,7 +92,6 @@ Fixpoint follow (enc : nat) (content : str) (obs : list (list str * list N)) : b
 
 Definition all_eq_first {A} (eqb : A -> A -> bool) (l : list A) : bool :=
   match l with [] => true | x :: r => forallb (eqb x) r end.
-Definition no_crlf_line (l : str) : bool := forallb (fun c => negb (is_cr c || is_lf c)) l.
 
 Definition fidelity09c (c : case09c) : bool :=
   let '(enc, start, b0, obs) := c in
@@ -117,7 +114,7 @@ Definition property09c (c : case09c) : bool :=
       match start with
       | inl _ => all_eq_first bytes_eqb (map snd obs) && all_eq_first (list_eqb str_eqb) (tl (map fst obs))
       | inr ls =>
-          if forallb no_crlf_line ls then
+          if forallb no_crlf ls then
             all_eq_first bytes_eqb (match b0 with Some b => [b] | None => [] end ++ map snd obs)
             && all_eq_first (list_eqb str_eqb) (map fst obs)
           else true
